@@ -247,7 +247,14 @@ def std_expected(obj: str):
 
 def std_client(rec) -> str:
     stmts = [STD_STMT[i] for i in rec["stmts"]]
-    refs = ", ".join(STD_USE[i] for i in rec["stmts"])
+    refs = ", ".join(STD_USE[i] for i, _ in rec["resolve"])           # what the statements that RUN bind
+    tail = f"\n\n\ndef use():\n    return [{refs}]\n\n\nprint([getattr(o, '__name__', type(o).__name__) for o in use()])\n"
+    if rec["place"] == "branch_if":
+        return f"import sys\n\nif len(sys.argv) < 50:\n    {stmts[0]}\nelse:\n    {stmts[1]}" + tail
+    if rec["place"] == "branch_else":
+        return f"import sys\n\nif len(sys.argv) > 50:\n    {stmts[0]}\nelse:\n    {stmts[1]}" + tail
+    if rec["place"] == "try_ok":
+        return f"try:\n    {stmts[0]}\nexcept ImportError:\n    {stmts[1]}" + tail
     if rec["place"] == "infunc":
         return "def use():\n" + "".join(f"    {s}\n" for s in stmts) + f"    return [{refs}]\n\n\nprint([getattr(o, '__name__', type(o).__name__) for o in use()])\n"
     if rec["place"] == "mixed" and len(stmts) > 1:
@@ -257,7 +264,7 @@ def std_client(rec) -> str:
 
 def _std_case(mods, rec):
     text = std_client(rec)
-    names = list(rec["stmts"])
+    names = [i for i, _ in rec["resolve"]]
     tmp = os.path.realpath(tempfile.mkdtemp(prefix="verif-c18s-"))
     import contextlib
     import io
@@ -311,7 +318,7 @@ def _std_case(mods, rec):
 def std_part(rep: Report, t: str, rng: random.Random, known) -> Tuple[int, int]:
     cfg = "\n".join(["CONSTANTS", '  BaseAlls = {"none"}', '  MidForms = {"from"}', '  TopForms = {"absent"}', '  ClientForms = {"from"}',
                      '  Variants = {"plain"}', '  Pkgs = {"flat"}', "  MaxUses = 1", f"  MaxStd = {2 if t == 'quick' else 3}",
-                     '  StdPlaces = {"top", "infunc", "mixed"}', "INIT InitStd", "NEXT Next", "INVARIANT DumpStd", "CHECK_DEADLOCK FALSE", ""])
+                     '  StdPlaces = {"top", "infunc", "mixed", "branch_if", "branch_else", "try_ok"}', "INIT InitStd", "NEXT Next", "INVARIANT DumpStd", "CHECK_DEADLOCK FALSE", ""])
     res = run_tlc("Imports", cfg, timeout_s=1800, keep_stdout=False)
     rep.add_tlc(res, "Imports (standard library statements)")
     recs = res.records
@@ -342,13 +349,11 @@ def std_part(rep: Report, t: str, rng: random.Random, known) -> Tuple[int, int]:
             continue
         sh = blame.shape(r["client"], r["formatted"]) if r.get("formatted") else {}
         # two statements that bind one name to DIFFERENT objects (the model's catalogue says which object)
-        objs = {}
-        for i, o in rec["resolve"]:
-            pass
         bound = {}
         for i in rec["stmts"]:
             bound.setdefault(STD_BIND[i][0], set()).add(STD_BIND[i][1])
-        feats = [f"std-{i}" for i in rec["stmts"]] + [f"place-{rec['place']}"] + (["same-name-bound-twice"] if any(len(v) > 1 for v in bound.values()) else [])
+        feats = [f"std-{i}" for i in rec["stmts"]] + [f"place-{rec['place']}"] + ([("same-name-bound-in-branches" if rec["place"] in ("branch_if", "branch_else", "try_ok") else "same-name-bound-twice")]
+                                                                               if any(len(v) > 1 for v in bound.values()) else [])
         sh = dict(sh, features=list(sh.get("features", [])) + feats)
         kf = next((e["id"] for e in known if blame.matches_signature(e, "format_code", sh, r["client"])), None)
         case = {"statements": [STD_STMT[i] for i in rec["stmts"]], "place": rec["place"], "client": r["client"], "formatted": r.get("formatted"),
